@@ -22,6 +22,12 @@ def M(id_, file, old, new, props):
 
 
 MUTANTS = [
+    M('resume-probes-blobs-but-does-not-read-them', S,
+      "                        self.blobs.append(\n                            np.array(group['blobs_{}'.format(shell)]))",
+      "                        pass", 'C05 C03'),
+    M('resume-probes-transfer-set-only', S,
+      "                    if key in group:\n                        setattr(self, key, np.array(group[key]))",
+      "                    if key in group:\n                        pass", 'C05 C03'),
     M('nautilus-cache-not-consumed', N, "            self.points = self.points[n_points:]\n", "", 'C08 C03'),
     M('union-cache-not-consumed', U, "        self.points = self.points[n_points:]\n", "", 'C08 C03'),
     M('worker-not-reset', N, "        self.reset(rng=rng)\n        self.sample(n_points=n_points, return_points=False)",
